@@ -308,6 +308,8 @@ class Chain:
                     raise TxFailed('injected fault: token factory mint')
                 if kw['sender'] != contract or not tf_admin_ok(contract, d):
                     raise TxFailed('token factory: unauthorized mint of ' + d)
+                if I.fork(coin.get('amount') <= 0):
+                    raise TxFailed('token factory: zero amount mint')        # MsgMint validates the coin as positive (the test mock's bank does too)
                 bk = bank_of(I)
                 new_supply = simp(bk.supply.get(d, 0) + coin.get('amount'))
                 if I.fork(new_supply > (1 << 128) - 1):
